@@ -157,6 +157,14 @@ class Ctx:
         os.makedirs(REPLAYS, exist_ok=True)
         wall = time.time() - self.t0
         coverage = dict(coverage)
+        if "exhaustive" in coverage and not isinstance(coverage["exhaustive"], bool):
+            # the schema's flag is for runs that enumerate their whole space; completely enumerated sub-spaces go here
+            coverage["exhaustive_subspaces"] = coverage.pop("exhaustive")
+        coverage["evaluations"] = int(coverage.get("evaluations", 0))
+        coverage["distinct_nontrivial"] = int(coverage.get("distinct_nontrivial", 0))
+        if not isinstance(coverage.get("samples"), list):
+            coverage["samples"] = [coverage.get("samples")] if coverage.get("samples") else []
+        coverage.setdefault("rule", "")
         coverage.setdefault("inconclusive", len(self.inconclusive))
         if self.inconclusive:
             coverage.setdefault("inconclusive_samples", self.inconclusive[:5])
